@@ -119,6 +119,14 @@ func prepare(id string, tag string) (string, string) {
 	os.MkdirAll(mainDir, 0o755)
 	mainSrc := "package main\n\nimport (\n\tcheck \"" + def.pkg + "\"\n" + strings.Join(imports, "") + ")\n\nfunc main() { check.Main() }\n"
 	os.WriteFile(filepath.Join(mainDir, "main.go"), []byte(mainSrc), 0o644)
+	if id == "C13" {
+		// the free-running -race pass is a second binary over the same
+		// generated packages, linked against the real bytebufferpool
+		rd := filepath.Join(runDir, "racemain")
+		os.MkdirAll(rd, 0o755)
+		src := "package main\n\nimport (\n\trace \"verif/mc/checks/c13/race\"\n" + strings.Join(imports, "") + ")\n\nfunc main() { race.Main() }\n"
+		os.WriteFile(filepath.Join(rd, "main.go"), []byte(src), 0o644)
+	}
 	bin := filepath.Join(runDir, "bin", "check")
 	args := []string{"build", "-tags", "verif"}
 	if def.modfile != "" {
@@ -252,6 +260,12 @@ func main() {
 				continue
 			}
 			runDir, _ := prepare(id, "setup")
+			if id == "C13" {
+				// warm the -race build of the free-running pass
+				if o, err := run(mcDir, "go", "build", "-race", "-tags", "verif", "-o", filepath.Join(runDir, "bin", "race"), "./work/"+filepath.Base(runDir)+"/racemain"); err != nil {
+					fmt.Printf("setup: race build failed: %v\n%s\n", err, o)
+				}
+			}
 			os.RemoveAll(runDir)
 			fmt.Println("setup: built", id)
 		}
